@@ -39,6 +39,8 @@ def raw(x):
         return Fraction(int(x[2]), int(x[3]))
     if k == "dur":
         return dur(x[2:4])
+    if k == "rdur":
+        return cp.RatioDuration(Fraction(int(x[2]), int(x[3])))
     raise ValueError(x)
 
 
